@@ -15,13 +15,13 @@ import (
 type serverModel struct {
 	run, stop, serve, closeFn, muxServe *ssa.Function
 
-	accept    *ssa.Call       // listener.Accept() in Run
-	newConn   *ssa.Call       // newConn(...) in Run
-	connGo    *ssa.Go         // go func(){...}() per connection
-	connFn    *ssa.Function   // its target
+	accept    *ssa.Call           // listener.Accept() in Run
+	newConn   *ssa.Call           // newConn(...) in Run
+	connGo    *ssa.Go             // go func(){...}() per connection
+	connFn    *ssa.Function       // its target
 	serveCall ssa.CallInstruction // call of serveRequests inside connFn
-	teardown  *ssa.Function   // function containing the call of (*conn).close
-	tdDefer   *ssa.Defer      // the defer in connFn that registers teardown (nil if teardown == connFn)
+	teardown  *ssa.Function       // function containing the call of (*conn).close
+	tdDefer   *ssa.Defer          // the defer in connFn that registers teardown (nil if teardown == connFn)
 	closeCall ssa.CallInstruction // call of (*conn).close inside teardown
 
 	loopHead *ssa.BasicBlock // read loop header in serveRequests
